@@ -419,17 +419,23 @@ fn k_curve_steps() {
 // @+ desc="add_edge for a y-monotonic quadratic with quarter-grid points (x in ±4000 px, y in 0..+4000 px, surface 4x4): no overflow in the <<13/<<14 conversions and forward differences, no division by zero in the slope computation, 1 <= shift <= 6, 0 <= count < 2^shift, the edge is linked into bucket y_top only (or dropped when horizontal / below the surface), when count reaches 0 the running point is exactly (x2,y2)<<14; bounded to gently curved quads (shift <= 2, at most 3 subdivision steps; the full 64-step harness exhausts CBMC's memory); edges starting above the surface additionally run step(), proved in lane V"
 #[kani::proof]
 #[kani::unwind(18)]
-fn k_add_edge_curve() {
+fn k_add_edge_curve() { add_edge_curve_contract(2); }
+// @ob id=K.add_edge_curve_flat props=C08,C07 kind=bounded:y_top>=0,shift<=1 tier=thorough timeout=3000 fns=Rasterizer::add_edge
+// @+ desc="add_edge for nearly flat y-monotonic quadratics (one subdivision): same contract as K.add_edge_curve -- no overflow, no division by zero, 1 <= shift <= 6, linked into bucket y_top only, and the rasteriser bounds cover both end points AND the control point on every side (a quadratic stays inside its control polygon, so the coverage mask is large enough)"
+#[kani::proof]
+#[kani::unwind(18)]
+fn k_add_edge_curve_flat() { add_edge_curve_contract(1); }
+fn add_edge_curve_contract(max_shift: i32) {
     let mut r = Rasterizer::new(RH, RH);
     let c: [i32; 6] = kani::any();
     kani::assume(c[0] >= -16000 && c[0] <= 16000 && c[2] >= -16000 && c[2] <= 16000 && c[4] >= -16000 && c[4] <= 16000);
     kani::assume(c[1] >= 0 && c[1] <= 16000 && c[3] >= 0 && c[3] <= 16000 && c[5] >= 0 && c[5] <= 16000);
     // what add_quad guarantees: control y between the end points' y
     kani::assume((c[1] <= c[3] && c[3] <= c[5]) || (c[1] >= c[3] && c[3] >= c[5]));
-    // bounded stand-in: gently curved quads only (at most 4 subdivision steps)
+    // bounded stand-in: gently curved quads only (at most 2^max_shift - 1 subdivision steps)
     {
         let probe = Edge { x1: c[0], y1: c[1], control_x: c[2], control_y: c[3], x2: c[4], y2: c[5] };
-        kani::assume(compute_curve_steps(&probe) <= 2);
+        kani::assume(compute_curve_steps(&probe) <= max_shift);
     }
     r.add_edge(qpt(c[0], c[1]), qpt(c[4], c[5]), true, qpt(c[2], c[3]));
     let (yt, yb) = if c[5] < c[1] { (c[5], c[1]) } else { (c[1], c[5]) };
@@ -441,6 +447,9 @@ fn k_add_edge_curve() {
         assert!(e.shift >= 1 && e.shift <= 6, "1 <= shift <= 6");
         assert!(e.count >= 0 && e.count < (1 << e.shift), "0 <= count < 2^shift");
         assert!(e.y2 == yb, "bottom end");
+        assert!(r.bounds_left <= c[0] >> 2 && r.bounds_left <= c[2] >> 2 && r.bounds_left <= c[4] >> 2, "bounds cover the end points and the control point on the left");
+        assert!(r.bounds_right >= (c[0] + 3) >> 2 && r.bounds_right >= (c[2] + 3) >> 2 && r.bounds_right >= (c[4] + 3) >> 2, "bounds cover the end points and the control point on the right (a curve stays inside its control polygon)");
+        assert!(r.bounds_top <= yt >> 2 && r.bounds_bottom >= (yb + 3) >> 2, "bounds cover the curve vertically");
         if e.count == 0 { assert!(e.next_y == yb << 14 && e.next_x == e.x2 << 14, "last segment ends exactly on the end point"); }
     }
     kani::cover!(yt < yb && yt < RH * 4);
